@@ -20,10 +20,16 @@ def strip(o, ids=True, locations=False):
 
 def make_doc(seed, family, i, **kw):
     r = rng(seed, "doc", family, i)
+    if "default_dialect" not in kw and "dialect" not in kw and i % 5 == 2:
+        # every fifth document is written for a matcher whose DEFAULT dialect is the document's dialect (header optional)
+        from .. import dialects as _d
+        names = sorted(_d.master())
+        kw = dict(kw, dialect=names[r.randrange(len(names))])
+        kw["default_dialect"] = kw["dialect"]
     size = kw.get("size") or r.choice(["small", "medium", "medium", "large"] if i % 7 == 0 else ["small", "medium", "medium"])
     rare = kw.get("rare", i % 4 == 0)
     return docmodel.render(r, dialect=kw.get("dialect"), size=size, rare=rare, ascii_only=kw.get("ascii_only", False),
-                           special=kw.get("special", 0.0), deep=kw.get("deep", False))
+                           special=kw.get("special", 0.0), deep=kw.get("deep", False), default_dialect=kw.get("default_dialect", "en"))
 
 
 def generator_sound(R):
@@ -119,7 +125,13 @@ def check_doc(R, M, case, prop, reused=None):
     if not generator_sound(R):
         M.inconc("generator produced a document whose intended reading is not the grammar's reading: %s" % short(R.text, 200))
         return None
-    if reused is not None:
+    dd = getattr(R, "default_dialect", "en")
+    if dd != "en":
+        # read by a matcher configured with the document's dialect as its default
+        from gherkin.token_matcher import TokenMatcher
+        M.count("parses_with_non_en_default_matcher")
+        o = observe.parse_observed(R.text, matcher=TokenMatcher(dd))
+    elif reused is not None:
         o = reused.parse(R.text, M)
     else:
         # every fourth document is handed to the parser as a TokenScanner object instead of a string
